@@ -1,6 +1,7 @@
 package main
 
 import (
+	"os"
 	"fmt"
 	"go/token"
 	"go/types"
@@ -335,6 +336,27 @@ func (x *Exec) binop(a *activation, b *ssa.BasicBlock, i int, in *ssa.BinOp, fr 
 		}
 		fr.vals[in] = AV{k: 'B', tri: 3}
 		return false
+	case l.k == 'U' && r.k == 'U' && (in.Op == token.EQL || in.Op == token.NEQ):
+		// function values can only be compared with nil
+		nilness := func(v AV) int { // 1 nil, 2 non-nil, 0 unknown
+			switch {
+			case v.fn != nil || v.what == "closure":
+				return 2
+			case v.tri == 1 && v.what == "":
+				return 1
+			}
+			return 0
+		}
+		a, b := nilness(l), nilness(r)
+		switch {
+		case a == 1 && b == 1:
+			fr.vals[in] = res(true)
+		case (a == 1 && b == 2) || (a == 2 && b == 1):
+			fr.vals[in] = res(false)
+		default:
+			fr.vals[in] = AV{k: 'B', tri: 3}
+		}
+		return false
 	case l.k == 'B' && r.k == 'B' && (in.Op == token.EQL || in.Op == token.NEQ):
 		if l.tri != 3 && r.tri != 3 && l.tri != 0 && r.tri != 0 {
 			fr.vals[in] = res(l.tri == r.tri)
@@ -503,6 +525,9 @@ func (x *Exec) call(a *activation, b *ssa.BasicBlock, i int, in *ssa.Call, fr *f
 		if fv.k == 'U' && fv.fn != nil {
 			callee = fv.fn
 		} else {
+			if os.Getenv("EXEC_GAPDBG") != "" {
+				fmt.Fprintf(os.Stderr, "GAPDBG dynamic call %s: value %s = %+v\n", x.c.pos(in.Pos()), cc.Value.Name(), fv)
+			}
 			x.gap("dynamic call with unknown target in "+fname(fr.fn), in.Pos())
 			fr.vals[in] = x.opaqueOf(in.Type(), "dynamic call")
 			return false
